@@ -7,6 +7,7 @@ import (
 	"strings"
 	"syscall"
 	"testing"
+	"time"
 
 	"github.com/markusressel/fan2go/internal/configuration"
 	"github.com/markusressel/fan2go/internal/fans"
@@ -27,6 +28,7 @@ import (
 
 func init() {
 	register(&Family{Name: "c18walk", Gen: genC18Walk, Run: runC18Walk})
+	register(&Family{Name: "c18cfg", Gen: genC18Cfg, Run: runC18Cfg})
 	register(&Family{Name: "c18loop", Gen: genC18Loop, Run: runC18Loop})
 }
 
@@ -223,6 +225,77 @@ func rootOr(id int) string {
 }
 
 // ---------------------------------------------------------------------------
+
+// c18cfg: the real `fan2go config validate` in its own process, with the configuration file reached directly,
+// through a symbolic link, or through a path with ".." behind a symbolic link to a directory (so that the
+// file loaded is not the file at the lexically cleaned path), and the LOADED file's owner / group / mode
+// drawn from the attribute points: a configuration declaring a command sensor is accepted exactly when the
+// file that was loaded is root-controlled.
+func genC18Cfg(seed uint64, tier string) *world.Scenario {
+	sc, r := baseScenario("c18cfg", seed)
+	chip := addChip(sc, "simchip")
+	sc.Horizon = sec(5)
+	sc.Sensors = append(sc.Sensors, world.SensorSpec{ID: "s0", Kind: "cmd", Prog: constTemp(41000), Chip: chip})
+	sc.Curves = append(sc.Curves, world.CurveSpec{ID: "c0", Kind: "linear", Sensor: "s0", Min: 20, Max: 80})
+	f := world.FanSpec{ID: "f0", Kind: "file", Curve: "c0", Algo: world.AlgoSpec{Kind: "direct"}}
+	f.Plant = world.PlantSpec{NoRpm: true}
+	f.Driver = world.DriverSpec{NoEnable: true, InitPwm: 60}
+	im := identityMap()
+	f.PwmMap = &im
+	sc.Fans = append(sc.Fans, f)
+	pts := allPoints()
+	want := r.Intn(3) == 0 // one third root-controlled files, two thirds not (among all points they are rare)
+	p := pts[r.Intn(len(pts))]
+	for refAllowed(p) != want {
+		p = pts[r.Intn(len(pts))]
+	}
+	sc.Params["uid"], sc.Params["gid"], sc.Params["mode"] = float64(p.uid), float64(p.gid), float64(p.mode)
+	sc.Variant = kernel.Pick(r, "direct", "symlink", "dotdot", "dotdot")
+	return sc
+}
+
+func runC18Cfg(t *testing.T, sc *world.Scenario) *check.Result {
+	res := check.NewResult(sc.Family, sc.Seed)
+	res.ScHash = scHash(sc)
+	if os.Geteuid() != 0 {
+		res.Harness = "c18 needs root (chown)"
+		return res
+	}
+	p := attrPoint{uid: int(sc.Params["uid"]), gid: int(sc.Params["gid"]), mode: os.FileMode(int(sc.Params["mode"]))}
+	res.Sample = fmt.Sprintf("c18cfg seed=%d layout=%s attr=%+v", sc.Seed, sc.Variant, p)
+	worldDir, outDir := l2Dirs()
+	defer l2Cleanup(worldDir)
+	layout := sc.Variant
+	if layout == "direct" {
+		layout = ""
+	}
+	co := runChild(&childSpec{Scenario: sc, WorldDir: worldDir, OutDir: outDir, Args: []string{"config", "validate"},
+		CfgLayout: layout, CfgUID: p.uid, CfgGID: p.gid, CfgMode: uint32(p.mode) | 0o400}, 60*time.Second)
+	accumulate(res, co)
+	if stuckViolation(res, "C18", co) {
+		return res
+	}
+	if co.Harness != "" {
+		res.Harness = co.Harness + "\n" + tailStr(co.Stderr, 800)
+		return res
+	}
+	p.mode |= 0o400
+	accepted := co.ExitCode == 0 && co.hasNote("program-returned") && co.PanicMsg == ""
+	allowed := refAllowed(p)
+	sig := fmt.Sprintf("layout=%s owner=%s group=%s gw=%v ow=%v", sc.Variant, rootOr(p.uid), rootOr(p.gid), p.mode&0o020 != 0, p.mode&0o002 != 0)
+	res.Probe(fmt.Sprintf("config-validate-runs:%s:file-root-controlled=%v", sc.Variant, allowed))
+	switch {
+	case accepted && !allowed:
+		res.Violate("C18", "config-file-rejected", "config-file-rejected "+sig, 0, nil,
+			"`fan2go config validate` accepted a configuration declaring a cmd sensor although the file it loaded has %+v (mode %o); layout %s", p, p.mode, sc.Variant)
+	case !accepted && allowed:
+		res.Violate("C18", "config-file-accepted", "config-file-accepted "+sig, 0, nil,
+			"`fan2go config validate` rejected a root-controlled configuration file (%+v, mode %o; layout %s): exit %d %s", p, p.mode, sc.Variant, co.ExitCode, tailStr(co.Stderr, 300))
+	}
+	res.Nontrivial = true
+	res.State(fmt.Sprintf("%s|allowed=%v", sc.Variant, allowed))
+	return res
+}
 
 func genC18Loop(seed uint64, tier string) *world.Scenario {
 	sc, r := baseScenario("c18loop", seed)
